@@ -16,12 +16,19 @@ from symex.api import obligation
 TWO_PI = 2.0 * math.pi
 B = 1000.0
 ASSUMPTIONS = [
+    "uncertain states: reference headings, region orientations and half-widths of orientation intervals come from finite sets "
+    "(their cos / sin are numbers), all sizes and coordinates are symbolic; enclosure is claimed for the extreme points of every "
+    "extreme placement (sufficient by convexity for uncertain positions) and for sampled + corner-alignment angles of uncertain "
+    "orientations; polygon position regions have concrete vertices",
+    "scenario-level queries: one obstacle of every role at symbolic places, symbolic initial time step, query time, role / type "
+    "filters and position intervals",
     "obstacle shapes are given in the obstacle frame: rectangles and circles centred at the origin, polygons with their "
     "centroid at the origin (for these, 'rotated by the orientation and moved to the position' and the library's documented "
     "rotate-about-own-centre coincide)",
     "state orientations in [-2pi,2pi], |coordinates| <= 1000, trajectories of at most 3 states, time steps unbounded ints >= 0",
 ]
-OUTSIDE = ["obstacle shapes with an off-centre reference point", "wheelbase (trailer) kinematics of shape groups", "IEEE rounding"]
+OUTSIDE = ["obstacle shapes with an off-centre reference point", "wheelbase (trailer) kinematics of shape groups", "IEEE rounding",
+           "uncertain orientations between the sampled angles", "shape groups at uncertain states (the library raises ValueError)"]
 STUBS = ["symmath cos/sin/atan2", "shapely-lite Polygon (centroid, affinity.rotate, orient)"]
 F = ["commonroad/geometry/shape.py:occupancy_shape_from_state", "commonroad/geometry/shape.py:*.rotate_translate_local",
      "commonroad/scenario/obstacle.py:Obstacle.initial_state", "commonroad/scenario/obstacle.py:DynamicObstacle.occupancy_at_time",
@@ -262,4 +269,267 @@ MUTANTS = [
          new="return Occupancy(time_step=time_step, shape=self._initial_occupancy_shape) if time_step >= self.initial_state.time_step else None"),
     dict(name="interval-occupancy-open", target="commonroad.prediction.prediction:Prediction.occupancy_at_time_step",
          old="if occ.time_step.contains(time_step):", new="if occ.time_step.start < time_step <= occ.time_step.end:"),
+]
+
+
+# ---- uncertain states: the occupancy encloses the shape for every admissible position and orientation ---------------------
+# Reference headings / region orientations are taken from finite sets (their cos / sin are then numbers), every length, width,
+# radius and coordinate is symbolic: the enclosure claims are then linear real arithmetic over If-chains (bounding boxes), which
+# z3 decides for all sizes and positions.  Shapes and regions are convex, the enclosing rectangle is convex: it suffices that
+# the extreme points (corners / vertices, circle extreme points in the rectangle's axes) of every extreme placement are inside.
+HEADINGS = [0.0, 0.6435011087932844, -0.9272952180016122, math.pi / 2, 2.0, -2.5]
+REGION_ANGLES = [0.0, 0.5, -1.1, 2.2]
+TRIANGLES = [[[-2.0, -1.0], [2.0, -1.0], [0.0, 2.0]], [[-1.0, -2.0], [2.0, 0.5], [-1.0, 1.5]]]  # centroid at the origin
+TOL = 1e-7
+
+
+def rot(a, p):
+    c, s = math.cos(a), math.sin(a)
+    return (c * p[0] - s * p[1], s * p[0] + c * p[1])
+
+
+def shape_extreme_points(shape):
+    """extreme points of an obstacle shape in its own frame (circle: the four axis points of every direction are covered by
+    its bounding square, which is what the enclosure has to contain in the rectangle's frame - handled by the caller)"""
+    if isinstance(shape, Rectangle):
+        return [(sx * shape.length / 2, sy * shape.width / 2) for sx in (-1, 1) for sy in (-1, 1)]
+    if isinstance(shape, Polygon):
+        return [(v[0], v[1]) for v in shape.vertices[:-1]] if len(shape.vertices) > 3 and all(shape.vertices[0] == shape.vertices[-1]) else [(v[0], v[1]) for v in shape.vertices]
+    raise ValueError
+
+
+def region_extreme_points(region, phi):
+    if isinstance(region, Rectangle):
+        out = []
+        for sx in (-1, 1):
+            for sy in (-1, 1):
+                d = rot(phi, (1.0, 0.0)), rot(phi, (0.0, 1.0))
+                out.append((region.center[0] + sx * region.length / 2 * d[0][0] + sy * region.width / 2 * d[1][0],
+                            region.center[1] + sx * region.length / 2 * d[0][1] + sy * region.width / 2 * d[1][1]))
+        return out
+    if isinstance(region, Polygon):
+        return [(v[0], v[1]) for v in region.vertices][:3]
+    raise ValueError
+
+
+def inside_rect(V, occ, psi, point, extra=0.0):
+    """point (+ a disc of radius `extra` around it) lies in the rectangle occ whose orientation is the number psi"""
+    dx, dy = point[0] - occ.center[0], point[1] - occ.center[1]
+    c, s = math.cos(psi), math.sin(psi)
+    u, w = c * dx + s * dy, -s * dx + c * dy
+    return V.And(u + extra <= occ.length / 2 + TOL, -u + extra <= occ.length / 2 + TOL, w + extra <= occ.width / 2 + TOL, -w + extra <= occ.width / 2 + TOL)
+
+
+def _mk_uncertain_position(shape_kind, region_kind):
+    @obligation("C04", f"uncertain.position.{shape_kind}-in-{region_kind}", functions=F,
+                bounds=f"{shape_kind} shape with symbolic size, position uncertain in a {region_kind} region with symbolic size and centre, exact heading from "
+                       f"{len(HEADINGS)} values x region orientation from {len(REGION_ANGLES)} values; enclosure of every corner of every extreme placement")
+    def ob(V):
+        psi = HEADINGS[V.choice("heading", len(HEADINGS))]
+        cx, cy = V.real("cx", -B, B), V.real("cy", -B, B)
+        if shape_kind == "rectangle":
+            shape = Rectangle(V.real("len", 0.01, 100), V.real("wid", 0.01, 100))
+        elif shape_kind == "circle":
+            shape = Circle(V.real("radius", 0.01, 100))
+        else:
+            shape = Polygon(np.array(TRIANGLES[V.choice("triangle", len(TRIANGLES))]))
+        phi = 0.0
+        if region_kind == "rectangle":
+            phi = REGION_ANGLES[V.choice("region_orientation", len(REGION_ANGLES))]
+            region = Rectangle(V.real("region_len", 0.01, 100), V.real("region_wid", 0.01, 100), np.array([cx, cy]), phi)
+        elif region_kind == "circle":
+            region = Circle(V.real("region_radius", 0.01, 100), np.array([cx, cy]))
+        else:
+            # (a polygon region's centroid is an area-weighted quotient: with symbolic vertices that is nonlinear arithmetic z3 does
+            #  not finish, so polygon regions have concrete vertices - two triangles x two scales x two places - and the obstacle's
+            #  own size stays symbolic)
+            tri = TRIANGLES[V.choice("region_triangle", len(TRIANGLES))]
+            k = (0.5, 3.0)[V.choice("region_scale", 2)]
+            cx, cy = ((0.0, 0.0), (100.0, -50.0))[V.choice("region_place", 2)]
+            region = Polygon(np.array([[cx + k * p[0], cy + k * p[1]] for p in tri]))
+        state = st.KSState(time_step=1, position=region, orientation=psi, velocity=1.0, steering_angle=0.0)
+        o = DynamicObstacle(7, ObstacleType.CAR, shape, init_state(0, (0.0, 0.0), 0.0), TrajectoryPrediction(Trajectory(1, [state]), shape))
+        occ = o.occupancy_at_time(1)
+        V.prove("an occupancy is reported", occ is not None and isinstance(occ.shape, Rectangle))
+        if occ is None or not isinstance(occ.shape, Rectangle):
+            return
+        r = occ.shape
+        V.prove("the enclosing rectangle is aligned with the heading", V.close(r.orientation, psi, 1e-9))
+        conds = []
+        if region_kind == "circle":
+            centres, extra_region = [(cx, cy)], region.radius
+        else:
+            centres, extra_region = region_extreme_points(region, phi), 0.0
+        for p in centres:
+            if shape_kind == "circle":
+                conds.append(inside_rect(V, r, psi, p, extra_region + shape.radius))
+            else:
+                for q in shape_extreme_points(shape):
+                    qq = rot(psi, q)
+                    conds.append(inside_rect(V, r, psi, (p[0] + qq[0], p[1] + qq[1]), extra_region))
+        V.prove("the occupancy encloses the shape at every admissible position", V.And(conds))
+
+    return ob
+
+
+for _s in ("rectangle", "circle", "polygon"):
+    for _r in ("rectangle", "circle", "polygon"):
+        _mk_uncertain_position(_s, _r)
+
+DELTAS = [0.1, 0.3, 0.6435011087932844, 1.2]
+
+
+def _mk_uncertain_orientation(shape_kind, with_region):
+    @obligation("C04", f"uncertain.orientation.{shape_kind}{'.and-position' if with_region else ''}", functions=F,
+                bounds=f"{shape_kind} shape of fixed size, orientation interval [m-d, m+d] with m from {len(HEADINGS)} values and d from {DELTAS}, admissible "
+                       "orientations sampled at m + d*{-1,-1/2,0,1/2,1} and at the corner-alignment angles; symbolic position / position region")
+    def ob(V):
+        from commonroad.common.util import AngleInterval
+
+        m = HEADINGS[V.choice("mid_heading", len(HEADINGS))]
+        d = DELTAS[V.choice("half_width", len(DELTAS))]
+        cx, cy = V.real("cx", -B, B), V.real("cy", -B, B)
+        shape = Rectangle(4.0, 2.0) if shape_kind == "rectangle" else Circle(1.5) if shape_kind == "circle" else Polygon(np.array(TRIANGLES[0]))
+        if with_region:
+            region = Rectangle(V.real("region_len", 0.01, 100), V.real("region_wid", 0.01, 100), np.array([cx, cy]), 0.0)
+            centres = region_extreme_points(region, 0.0)
+            pos = region
+        else:
+            centres = [(cx, cy)]
+            pos = np.array([cx, cy])
+        state = st.CustomState(time_step=1, position=pos, orientation=AngleInterval(m - d, m + d), velocity=1.0)
+        o = DynamicObstacle(7, ObstacleType.CAR, shape, init_state(0, (0.0, 0.0), 0.0), TrajectoryPrediction(Trajectory(1, [state]), shape))
+        occ = o.occupancy_at_time(1)
+        V.prove("an occupancy is reported", occ is not None and isinstance(occ.shape, Rectangle))
+        if occ is None or not isinstance(occ.shape, Rectangle):
+            return
+        r = occ.shape
+        V.prove("the enclosing rectangle is aligned with the middle of the orientation interval", V.close(r.orientation, m, 1e-9))
+        conds = []
+        thetas = [m + d * f for f in (-1.0, -0.5, 0.0, 0.5, 1.0)]
+        if shape_kind != "circle":
+            for q in shape_extreme_points(shape):  # the angle at which a corner is farthest along an axis of the rectangle
+                a = math.atan2(q[1], q[0])
+                for k in (0.0, math.pi / 2, math.pi, -math.pi / 2):
+                    e = (k - a + math.pi) % (2 * math.pi) - math.pi
+                    if -d <= e <= d:
+                        thetas.append(m + e)
+        for p in centres:
+            if shape_kind == "circle":
+                conds.append(inside_rect(V, r, m, p, shape.radius))
+                continue
+            for th in thetas:
+                for q in shape_extreme_points(shape):
+                    qq = rot(th, q)
+                    conds.append(inside_rect(V, r, m, (p[0] + qq[0], p[1] + qq[1])))
+        V.prove("the occupancy encloses the shape at every admissible position and sampled admissible orientation", V.And(conds))
+
+    return ob
+
+
+for _s in ("rectangle", "circle", "polygon"):
+    _mk_uncertain_orientation(_s, False)
+_mk_uncertain_orientation("rectangle", True)
+
+
+# ---- scenario-level queries return what the per-obstacle answers imply -----------------------------------------------------------
+def _scenario(V):
+    from commonroad.scenario.scenario import Scenario, ScenarioID
+
+    sc = Scenario(0.1, ScenarioID.from_benchmark_id("DEU_Muc-1_2_T-1", "2020a"))
+    P = lambda n: (V.real(n + "_x", -B, B), V.real(n + "_y", -B, B))  # noqa: E731
+    t0 = V.int("t0", 0, 5)
+    ps = {k: P(k) for k in ("static", "dyn", "dyn1", "nopred", "ph", "env")}
+    sc.add_objects(StaticObstacle(30, ObstacleType.PARKED_VEHICLE, Rectangle(2.0, 1.0), init_state(0, ps["static"], 0.0)))
+    st1 = st.KSState(time_step=t0 + 1, position=np.array([ps["dyn1"][0], ps["dyn1"][1]]), orientation=0.0, velocity=1.0, steering_angle=0.0)
+    sc.add_objects(DynamicObstacle(31, ObstacleType.CAR, Rectangle(2.0, 1.0), init_state(t0, ps["dyn"], 0.0),
+                                   TrajectoryPrediction(Trajectory(t0 + 1, [st1]), Rectangle(2.0, 1.0))))
+    sc.add_objects(DynamicObstacle(32, ObstacleType.BICYCLE, Circle(0.5), init_state(t0 + 1, ps["nopred"], 0.0)))
+    sc.add_objects(PhantomObstacle(33, SetBasedPrediction(t0, [Occupancy(t0, Circle(1.0, np.array([ps["ph"][0], ps["ph"][1]])))])))
+    sc.add_objects(EnvironmentObstacle(34, ObstacleType.BUILDING, Circle(3.0, np.array([ps["env"][0], ps["env"][1]]))))
+    return sc, t0
+
+
+FS = F + ["commonroad/scenario/scenario.py:Scenario.occupancies_at_time_step", "commonroad/scenario/scenario.py:Scenario.obstacle_states_at_time_step",
+          "commonroad/scenario/scenario.py:Scenario.obstacles_by_role_and_type", "commonroad/scenario/scenario.py:Scenario.obstacles_by_position_intervals"]
+
+
+@obligation("C04", "scenario.occupancies-and-states", functions=FS,
+            bounds="scenario with one obstacle of every role (static, trajectory, no prediction, phantom, environment) at symbolic places, symbolic initial "
+                   "time step 0..5, symbolic query time 0..8, role filter None / each role")
+def scenario_occ(V):
+    from commonroad.scenario.obstacle import ObstacleRole
+
+    sc, t0 = _scenario(V)
+    t = V.int("t", 0, 8)
+    roles = [None, ObstacleRole.STATIC, ObstacleRole.DYNAMIC, ObstacleRole.ENVIRONMENT, ObstacleRole.Phantom]
+    role = roles[V.choice("role_filter", len(roles))]
+    got = sc.occupancies_at_time_step(t, role)
+    want = [o.occupancy_at_time(t) for o in sc.obstacles if (role is None or o.obstacle_role == role)]
+    want = [w for w in want if w is not None]
+    ok = len(got) == len(want)
+    conds = []
+    if ok:
+        for g, w in zip(got, want):
+            ok = ok and type(g.shape) is type(w.shape)
+            conds += [V.eq(g.time_step, w.time_step), V.eq(g.shape.center[0], w.shape.center[0]), V.eq(g.shape.center[1], w.shape.center[1])]
+    V.prove("occupancies_at_time_step returns exactly the per-obstacle occupancies", V.And([ok] + conds))
+    states = sc.obstacle_states_at_time_step(t)
+    exp = {}
+    for o in sc.dynamic_obstacles:
+        if o.state_at_time(t) is not None:
+            exp[o.obstacle_id] = o.state_at_time(t)
+    for o in sc.static_obstacles:
+        exp[o.obstacle_id] = o.state_at_time(t)
+    V.prove("obstacle_states_at_time_step returns exactly the per-obstacle states", set(states) == set(exp) and all(states[k] is exp[k] for k in exp))
+    types = [None, ObstacleType.CAR, ObstacleType.BICYCLE, ObstacleType.BUILDING, ObstacleType.TRUCK]
+    ty = types[V.choice("type_filter", len(types))]
+    sel = sc.obstacles_by_role_and_type(role, ty)
+    V.prove("obstacles_by_role_and_type returns exactly the obstacles of that role and type",
+            sorted(o.obstacle_id for o in sel) == sorted(o.obstacle_id for o in sc.obstacles if (role is None or o.obstacle_role == role) and
+                                                         (ty is None or getattr(o, "obstacle_type", None) == ty)))
+
+
+@obligation("C04", "scenario.position-intervals", functions=FS, max_paths={"quick": 6000, "thorough": 30000},
+            bounds="same scenario; symbolic x / y intervals, symbolic query time, role tuples: default / all four roles / each single role")
+def scenario_pos(V):
+    from commonroad.scenario.obstacle import ObstacleRole
+
+    sc, t0 = _scenario(V)
+    t = V.int("t", 0, 8)
+    x0, y0 = V.real("ix_lo", -B, B), V.real("iy_lo", -B, B)
+    ix, iy = Interval(x0, x0 + V.real("ix_len", 0, B)), Interval(y0, y0 + V.real("iy_len", 0, B))
+    sets = [(ObstacleRole.DYNAMIC, ObstacleRole.STATIC), (ObstacleRole.DYNAMIC, ObstacleRole.STATIC, ObstacleRole.ENVIRONMENT, ObstacleRole.Phantom),
+            (ObstacleRole.STATIC,), (ObstacleRole.DYNAMIC,), (ObstacleRole.ENVIRONMENT,), (ObstacleRole.Phantom,)]
+    roles = sets[V.choice("roles", len(sets))]
+    got = {o.obstacle_id for o in sc.obstacles_by_position_intervals([ix, iy], roles, t)}
+    conds = []
+    for o in sc.obstacles:
+        if o.obstacle_role not in roles:
+            conds.append(o.obstacle_id not in got)
+            continue
+        occ = o.occupancy_at_time(t)
+        if occ is None:
+            conds.append(o.obstacle_id not in got)
+            continue
+        c = occ.shape.center
+        inside = V.And(c[0] >= ix.start, c[0] <= ix.end, c[1] >= iy.start, c[1] <= iy.end)
+        conds.append(V.iff(inside, o.obstacle_id in got))
+    V.prove("obstacles_by_position_intervals returns exactly the obstacles whose occupancy centre at t lies in the intervals", V.And(conds))
+
+
+MUTANTS += [
+    dict(name="enclosure-region-frame-sign", target="commonroad.geometry.shape:occupancy_shape_from_state",
+         old="rotate_translate_local(np.array([0, 0]), -psi_d)", new="rotate_translate_local(np.array([0, 0]), psi_d)", only="uncertain.position.rectangle-in-rectangle"),
+    dict(name="enclosure-forgets-region-width", target="commonroad.geometry.shape:occupancy_shape_from_state",
+         old="w_enclosing = w_s + w_v + w_psi", new="w_enclosing = w_v + w_psi", only="uncertain.position.circle-in-circle"),
+    dict(name="enclosure-orientation-term-dropped", target="commonroad.geometry.shape:occupancy_shape_from_state",
+         old="l_enclosing = l_s + l_v + l_psi", new="l_enclosing = l_s + l_v", only="uncertain.orientation.rectangle"),
+    dict(name="scenario-occupancies-ignore-role", target="commonroad.scenario.scenario:Scenario.occupancies_at_time_step",
+         old="(obstacle_role is None or obstacle.obstacle_role == obstacle_role) and", new="(True) and", only="scenario.occupancies"),
+    dict(name="scenario-states-skip-initial-step", target="commonroad.scenario.scenario:Scenario.obstacle_states_at_time_step",
+         old="            if obstacle.state_at_time(time_step) is not None:", new="            if obstacle.state_at_time(time_step) is not None and time_step > obstacle.initial_state.time_step:",
+         only="scenario.occupancies"),
+    dict(name="position-interval-static-uses-y-twice", target="commonroad.scenario.scenario:Scenario.obstacles_by_position_intervals",
+         old="position_intervals[1].contains(position[1])", new="position_intervals[1].contains(position[0])", only="scenario.position"),
 ]
